@@ -103,7 +103,8 @@ type source interface {
 
 // ---------------------------------------------------------------- random generator
 
-var c15Names = []string{"a", "ab", "b", "é", ""}
+// two long names: request bodies of about 1 KiB and 5 KiB (a transport-specific size limit shows here)
+var c15Names = []string{"a", "ab", "b", "é", "", strings.Repeat("n", 960), strings.Repeat("L", 5000)}
 
 type randSource struct {
 	r     *common.Rng
@@ -171,7 +172,7 @@ func (g *randSource) next(st *genState) (step, bool) {
 	switch weighted(r, []string{"TryLock", "Unlock", "Renew"}, []int{45, 30, 25}) {
 	case "TryLock":
 		q.Rpc = "TryLock"
-		q.Name = weighted(r, c15Names, []int{30, 20, 25, 17, 8})
+		q.Name = weighted(r, c15Names, []int{30, 20, 25, 17, 8, 4, 3})
 		q.Size = weighted(r, []*int32{nil, p32(0), p32(1), p32(2), p32(-1)}, []int{35, 8, 20, 30, 7})
 		q.Lt = weighted(r, []*int32{nil, p32(0), p32(5), p32(-1)}, []int{40, 10, 40, 10})
 	case "Unlock":
